@@ -93,7 +93,6 @@ Definition sub_model (v : Z) : fmodel :=
 Definition core_model : fmodel :=
   mkModel ex_span ["G"] [("G", ex_X)] (mkSeries NStr [CStr "-"; CStr "."; CStr "."]) (mkSeries NInt [CInt (-1); CInt 1; CInt 1]).
 Definition ex_linker : flinker := mkLinker (CStr "_") core_model [(CStr "a", sub_model 1); (CInt 2, sub_model 2)].
-Definition clash_linker : flinker := mkLinker (CStr "_") core_model [(CStr "a", sub_model 1); (CStr "_", sub_model 2)].
 
 Lemma sub_model_wf v : wf_model (sub_model v) 3.
 Proof.
@@ -141,18 +140,12 @@ Example ex_linker_keys :
   end.
 Proof. vm_compute. split; reflexivity. Qed.
 
-(* a submodel keyed like the linker: two tables for a linker with two submodels, and the one stored under the linker's
-   name is the submodel's, not the linker's *)
-Lemma linker_name_clash_refuted :
-  exists l ts, NoDup (map fst (lsubs l)) /\ linker_to_tables true true false l = TOk ts /\
-    length ts = length (lsubs l) /\
-    forall t, model_to_table true true false (lmodel l) = TOk t -> ~ In (lname l, t) ts.
-Proof.
-  exists clash_linker. eexists. split; [repeat constructor; cbn; intuition discriminate|].
-  split; [vm_compute; reflexivity|]. split; [reflexivity|].
-  intros t H. vm_compute in H. inversion H; subst; clear H.
-  intros [H|[H|[]]]; inversion H.
-Qed.
+(* a submodel keyed like the linker (the default name is '_'): since f5ef8bd the constructor refuses it, so the export never
+   meets such a linker; ex_linker is what the constructor returns for its arguments *)
+Example linker_constructor_refuses_clash :
+  linker_construct (CStr "_") core_model [(CStr "a", sub_model 1); (CStr "_", sub_model 2)] = TErr DuplicateNameError /\
+  linker_construct (CStr "_") core_model [(CStr "a", sub_model 1); (CInt 2, sub_model 2)] = TOk ex_linker.
+Proof. vm_compute. split; reflexivity. Qed.
 
 (* ------------------------------------------------------------------ from_dataframe: instance and refutations *)
 Definition float_model : fmodel :=
@@ -284,13 +277,13 @@ Proof.
   exists big_lag_symbols. eexists. split; [vm_compute; reflexivity|]. split; [discriminate|]. split; reflexivity.
 Qed.
 
-(* parse_model("Y = X[9223372036854775808]"): a lead outside int64 makes the round trip raise TypeError *)
-Lemma symbols_roundtrip_int64_refuted :
-  exists ss, symbols_roundtrip ss = TErr TypeError.
-Proof.
-  exists [mkSymbol (Some "X") TExogenous (Some (IInt 0)) (Some (IInt 18446744073709551616)) None None].
-  vm_compute. reflexivity.
-Qed.
+(* parse_model("Y = X[18446744073709551616]") and X[-9223372036854775809]: lags / leads outside int64 (an object column
+   of Python ints) come back exactly since 0a27206 *)
+Example symbols_roundtrip_outside_int64 :
+  let ss := [mkSymbol (Some "Y") TEndogenous (Some (IInt 0)) (Some (IInt 0)) (Some "e") (Some "c");
+             mkSymbol (Some "X") TExogenous (Some (IInt (-9223372036854775809))) (Some (IInt 18446744073709551616)) None None] in
+  symbols_roundtrip ss = TOk ss /\ sym_wf ss = true.
+Proof. vm_compute. split; reflexivity. Qed.
 
 (* the enum values of Type are read from the regenerated table: Type(x) inverts them *)
 Example type_values_invert : forall t, type_of_value (type_value t) = Some t.
@@ -449,5 +442,5 @@ Example table_to_symbols_error_order :
   table_to_symbols (mkTable ix (firstn 5 (base 99))) = TErr ValueError /\
   table_to_symbols (mkTable ix (firstn 5 (base 2))) = TErr KeyError /\
   table_to_symbols (mkTable ix (tl (tl (base 2)) ++ [col "extra" PInt64 (CInt 1)])) = TErr KeyError /\
-  table_to_symbols (mkTable ix ([col "lags" PStrDt (CStr "a"); col "extra" PInt64 (CInt 1)] ++ base 2)) = TErr TypeError.
+  table_to_symbols (mkTable ix ([col "lags" PStrDt (CStr "a"); col "extra" PInt64 (CInt 1)] ++ base 2)) = TErr ValueError.
 Proof. vm_compute. repeat split; reflexivity. Qed.
